@@ -19,16 +19,20 @@
 //     massless-body failures are outcomes (counted, and checked to be *justified* by the input);
 //     any other exception is a violation candidate.
 //
-// Enumeration (--enum "n:m:F|C,..." ; n = non-ground bodies, m = joints, also "n:a-b:mode"):
+// Enumeration (--enum "n:m:MODE,..." ; n = non-ground bodies, m = joints, also "n:a-b:MODE"):
 //   a block <n,m> is the set of all multisets of m joints, a joint being <parent,child,type>
 //   with parent != child in {Ground,b1..bn} (both orientations, Ground joints, multi-edges) and
-//   type in {weld, pin, free, ball(haveGoodLoopJointAvailable)}, times "at most one flagged
-//   item": none | one massless body | one mustBeBaseBody body | one mustBeLoopJoint joint.
-//   Mode F = every labelled multiset; mode C = one representative per orbit under relabelling of
-//   the non-ground bodies (the lexicographically least). Every enumerated case gets ONE joint
-//   insertion order (sorted, or a permutation derived from the case index). Global case index =
-//   block offset + multisetRank*(1+2n+m) + flag : a pure function of the arguments, independent
-//   of seed and worker. Worker k of --nworkers W runs the multisets with rank == k (mod W).
+//   type in {weld, pin, free, ball(haveGoodLoopJointAvailable)}, times a choice of flagged items
+//   (massless body | mustBeBaseBody body | mustBeLoopJoint joint):
+//     mode F = every labelled multiset x at most one flagged item;
+//     mode C = as F but one representative per orbit under relabelling of the non-ground
+//              bodies (the lexicographically least);
+//     mode P = every labelled multiset x exactly two flagged items.
+//   Every enumerated case gets ONE joint insertion order (sorted, or a permutation derived from
+//   the case index); bodies are added in label order. Global case index = block offset +
+//   multisetRank*(number of flag choices) + flagChoice : a pure function of the arguments,
+//   independent of seed and worker. Worker k of --nworkers W runs the multisets with
+//   rank == k (mod W).
 //   --cases N is the number of *random* graphs per worker (indices E+0..E+N-1, E = size of the
 //   enumeration index space); they depend on <seed, index> only.
 #include "SimTKcommon.h"
@@ -334,7 +338,6 @@ static bool checkGraph(Ctx& c, Wit& W, const std::function<Json()>& wf, const MG
     KEY(K_lcType, "constraint:type_differs_from_joint_type");
     KEY(K_lcGood, "constraint:joint_type_has_no_good_loop_joint");
     KEY(K_lcBodies, "constraint:bodies_not_parent_child_of_joint");
-    KEY(K_lcAdded, "constraint:added_base_joint_became_loop_constraint");
     KEY(K_base, "basebody:flagged_body_not_level_one_on_ground");
     KEY(K_baseFree, "basebody:flagged_body_mobilizer_not_added_free");
     KEY(K_iso, "isolated:jointless_body_not_on_added_base_mobilizer");
@@ -561,7 +564,6 @@ static bool checkGraph(Ctx& c, Wit& W, const std::function<Json()>& wf, const MG
         if (!jok) continue;
         ++jointConsCount[jn];
         const std::string jname = g.getJoint(jn).name;
-        REQ(K_lcAdded, jn < nj, "added base joint '" << jname << "' was not used as a base mobilizer but turned into loop constraint " << k);
         REQ(K_lcType, typeByName(lc.getJointTypeName()) == jt[jn], "loop constraint " << k << " (" << jname << ") type '" << lc.getJointTypeName() << "'");
         REQ(K_lcGood, TYPES[jt[jn]].goodLoop, "loop constraint " << k << " (" << jname << ") of type '" << TYPES[jt[jn]].name << "'");
         REQ(K_lcBodies, lc.getParentBodyRef() == bref(jp[jn]) && lc.getChildBodyRef() == bref(jc[jn]), "loop constraint " << k << " (" << jname << ")");
@@ -573,7 +575,7 @@ static bool checkGraph(Ctx& c, Wit& W, const std::function<Json()>& wf, const MG
                         && (J.hasMobilizer() ? jointMobCount[j] == 1 : jointConsCount[j] == 1);
         REQ(K_jOnce, ok, "joint '" << J.name << "': " << jointMobCount[j] << " mobilizers, " << jointConsCount[j] << " loop constraints (record: mobilizer "
                                    << J.mobilizer << ", loopConstraint " << J.loopConstraint << ")");
-        if (j >= nj) REQ(K_adUse, jointMobCount[j] == 1, "added base joint '" << J.name << "' is not a mobilizer");
+        if (j >= nj) REQ(K_adUse, jointMobCount[j] == 1, "added base joint '" << J.name << "' was not used as a base mobilizer (it became " << (J.hasLoopConstraint() ? "a loop constraint" : "nothing") << ")");
     }
 
     // ---- base bodies, isolated bodies
@@ -583,9 +585,10 @@ static bool checkGraph(Ctx& c, Wit& W, const std::function<Json()>& wf, const MG
         if (in.bodies[i].base) {
             if (bodyHasGroundJoint[i]) c.obs("precondition:baseflag_with_ground_joint");
             else {
-                REQ(K_base, B.level == 1 && mobIn[B.mobilizer] == 0, "mustBeBaseBody body '" << B.name << "' (no explicit Ground joint) is at level " << B.level
-                                                                      << " with inboard body '" << g.getBody(mobIn[B.mobilizer]).name << "'");
-                REQ(K_baseFree, jn >= nj && jt[jn] == typeByName("free"), "mustBeBaseBody body '" << B.name << "' is mobilized by joint '" << g.getJoint(jn).name << "'");
+                const bool onGround = B.level == 1 && mobIn[B.mobilizer] == 0;
+                REQ(K_base, onGround, "mustBeBaseBody body '" << B.name << "' (no explicit Ground joint) is at level " << B.level
+                                                                      << " with inboard body '" << g.getBody(mobIn[B.mobilizer]).name << "' through joint '" << g.getJoint(jn).name << "'");
+                if (onGround) REQ(K_baseFree, jn >= nj && jt[jn] == typeByName("free"), "mustBeBaseBody body '" << B.name << "' is mobilized by joint '" << g.getJoint(jn).name << "'");
             }
         }
         if (!bodyHasInputJoint[i])
@@ -821,12 +824,12 @@ static std::vector<Block> parseEnum(const std::string& spec, uint64_t& total) {
         if (sscanf(item.c_str(), "%d:%d-%d:%c", &n, &a, &b, &mode) == 4) {}
         else if (sscanf(item.c_str(), "%d:%d:%c", &n, &b, &mode) == 3) { a = b; }
         else { fprintf(stderr, "mon_graph: bad --enum item '%s'\n", item.c_str()); exit(2); }
-        if (n < 1 || n > 6 || a < 0 || b > 8 || (mode != 'F' && mode != 'C')) { fprintf(stderr, "mon_graph: --enum item out of range '%s'\n", item.c_str()); exit(2); }
+        if (n < 1 || n > 6 || a < 0 || b > 8 || (mode != 'F' && mode != 'C' && mode != 'P')) { fprintf(stderr, "mon_graph: --enum item out of range '%s'\n", item.c_str()); exit(2); }
         for (int m = a; m <= b; ++m) {
             Block B; B.n = n; B.m = m; B.mode = mode;
             const int K = n * (n + 1) * NENUMTYPES;
             B.combos = binom(K + m - 1, m);
-            B.F = 1 + 2 * n + m;
+            B.F = numFlagChoices(mode, n, m);
             B.base = total;
             total += B.combos * (uint64_t)B.F;
             bl.push_back(B);
@@ -852,7 +855,34 @@ static inline bool nextMultiset(int* a, int m, int K) {
     for (int k = i; k < m; ++k) a[k] = v;
     return true;
 }
-// flag: 0 none | 1..n massless body | n+1..2n base body | 2n+1..2n+m loop joint (sorted position)
+// Flag atoms of a block <n,m>: 0..n-1 body (atom+1) massless | n..2n-1 body (atom-n+1) mustBeBaseBody |
+// 2n..2n+m-1 joint at sorted position (atom-2n) mustBeLoopJoint.  Modes F and C: flag index 0 = no
+// atom, f>=1 = atom f-1. Mode P: flag index = rank of a pair x<y of atoms (exactly two flagged items).
+struct Flags { int cnt = 0; int atom[2] = {-1, -1}; };
+static Flags decodeFlags(char mode, int flag, int n, int m) {
+    Flags f;
+    if (mode != 'P') { if (flag > 0) { f.cnt = 1; f.atom[0] = flag - 1; } return f; }
+    const int A = 2 * n + m;
+    int k = flag;
+    for (int x = 0; x < A - 1; ++x) {
+        const int row = A - 1 - x;
+        if (k < row) { f.cnt = 2; f.atom[0] = x; f.atom[1] = x + 1 + k; return f; }
+        k -= row;
+    }
+    return f;
+}
+static int numFlagChoices(char mode, int n, int m) { const int A = 2 * n + m; return mode == 'P' ? A * (A - 1) / 2 : 1 + A; }
+// The same labelled object is listed twice when a flagged joint has an equal unflagged twin before it.
+static bool duplicateListing(const int* a, int n, const Flags& f) {
+    for (int q = 0; q < f.cnt; ++q) {
+        const int pos = f.atom[q] - 2 * n;
+        if (pos <= 0 || a[pos - 1] != a[pos]) continue;
+        bool prevFlagged = false;
+        for (int w = 0; w < f.cnt; ++w) if (f.atom[w] == f.atom[q] - 1) prevFlagged = true;
+        if (!prevFlagged) return true;
+    }
+    return false;
+}
 // Is <codes, flag> the least of its orbit under permutations of the non-ground bodies?
 // Order: codes lexicographically, then <kind, target> with target = body label or code of
 // the flagged joint.
@@ -865,12 +895,12 @@ static bool multisetCanonical(const int* a, int m, int n, std::vector<std::vecto
     }
     return true;
 }
-static bool flagCanonical(const int* a, int m, int n, int flag, std::vector<std::vector<int>>& perms) {
-    if (flag == 0) return true;
+static bool flagCanonical(const int* a, int m, int n, const Flags& f, std::vector<std::vector<int>>& perms) {
+    if (f.cnt == 0) return true;
     int img[8];
-    const bool jointFlag = flag > 2 * n;
-    const int body = jointFlag ? 0 : (flag - 1) % n + 1;
-    const int pos = jointFlag ? flag - 2 * n - 1 : -1;
+    const bool jointFlag = f.atom[0] >= 2 * n;
+    const int body = jointFlag ? 0 : f.atom[0] % n + 1;
+    const int pos = jointFlag ? f.atom[0] - 2 * n : -1;
     for (auto& pi : perms) {
         for (int k = 0; k < m; ++k) { int p, ch, t; decodeJoint(a[k], n, p, ch, t); img[k] = encodeJoint(pi[p], pi[ch], t, n); }
         const int flaggedImg = jointFlag ? img[pos] : 0;
@@ -883,14 +913,18 @@ static bool flagCanonical(const int* a, int m, int n, int flag, std::vector<std:
     }
     return true;
 }
-static Input enumInput(const int* a, int m, int n, int flag, uint64_t globalIdx) {
+static Input enumInput(const int* a, int m, int n, const Flags& f, uint64_t globalIdx) {
     Input in;
     in.bodies.resize(n + 1);
     in.bodies[0] = {"g", 0.0, false};
     for (int i = 1; i <= n; ++i) in.bodies[i] = {"b" + std::to_string(i), 1.0, false};
-    if (flag >= 1 && flag <= n) in.bodies[flag].mass = 0;
-    else if (flag > n && flag <= 2 * n) in.bodies[flag - n].base = true;
-    const int loopPos = flag > 2 * n ? flag - 2 * n - 1 : -1;
+    bool loopAt[8] = {false, false, false, false, false, false, false, false};
+    for (int q = 0; q < f.cnt; ++q) {
+        const int at = f.atom[q];
+        if (at < n) in.bodies[at + 1].mass = 0;
+        else if (at < 2 * n) in.bodies[at - n + 1].base = true;
+        else loopAt[at - 2 * n] = true;
+    }
     // insertion order of the joints: sorted, or a permutation derived from the index
     int ord[8];
     for (int k = 0; k < m; ++k) ord[k] = k;
@@ -900,7 +934,7 @@ static Input enumInput(const int* a, int m, int n, int flag, uint64_t globalIdx)
     in.joints.resize(m);
     for (int k = 0; k < m; ++k) {
         int p, ch, t; decodeJoint(a[ord[k]], n, p, ch, t);
-        in.joints[k] = {"j" + std::to_string(k), t, p, ch, ord[k] == loopPos};
+        in.joints[k] = {"j" + std::to_string(k), t, p, ch, loopAt[ord[k]]};
     }
     return in;
 }
@@ -1048,15 +1082,16 @@ int main(int argc, char** argv) {
             if (B.mode == 'C' && a.only < 0 && !multisetCanonical(cur, m, n, perms)) { enumSkippedNonCanonical += B.F; continue; }
             for (int flag = 0; flag < B.F; ++flag) {
                 if (a.only >= 0 && flag != onlyFlag) continue;
+                const Flags fl = decodeFlags(B.mode, flag, n, m);
                 if (a.only < 0) {
-                    if (flag > 2 * n) { const int pos = flag - 2 * n - 1; if (pos > 0 && cur[pos - 1] == cur[pos]) { ++enumSkippedDuplicates; continue; } }
-                    if (B.mode == 'C' && !flagCanonical(cur, m, n, flag, perms)) { ++enumSkippedNonCanonical; continue; }
+                    if (duplicateListing(cur, n, fl)) { ++enumSkippedDuplicates; continue; }
+                    if (B.mode == 'C' && !flagCanonical(cur, m, n, fl, perms)) { ++enumSkippedNonCanonical; continue; }
                 }
                 const uint64_t gidx = B.base + rank * (uint64_t)B.F + (uint64_t)flag;
                 ++enumCases;
                 if (dry) continue;
                 runOne((long)gidx, [&] {
-                    const Input in = enumInput(cur, m, n, flag, gidx);
+                    const Input in = enumInput(cur, m, n, fl, gidx);
                     runGraph(c, in, true, (gidx % 9973) == 0 || a.verbose, second <= 1 || gidx % (uint64_t)second == 0);
                 });
             }
